@@ -59,8 +59,8 @@ PathStr(m) == IF m.t = "Identifier" THEN m.v ELSE PathStr(m.c[1]) \o "." \o m.c[
 
 (* pr: how often each static path X.y.z was read (a bag). Reads along static paths are not events -- the  *)
 (* property lets X.prototype.m be read before or after a this-argument -- but none may be added or lost. *)
-(* d21: evaluate with the named deviation D21 -- an optional call X?.y.f?.(..) whose callee is itself a link of  *)
-(* the chain is made without its receiver                                                                      *)
+(* d21: ids of the optional-call links evaluated with the named deviation D21 -- the call is made without its    *)
+(* receiver (see D21Ids)                                                                                        *)
 InitState(inj, hooks, late, d21) == [n |-> 0, ev |-> <<>>, b |-> <<>>, cl |-> {}, pr |-> <<>>, inj |-> inj, hooks |-> hooks,
                                      late |-> late, d21 |-> d21]
 ReadPath(S, p) == [S EXCEPT !.pr = IF p \in DOMAIN @ THEN [@ EXCEPT ![p] = @ + 1] ELSE (p :> 1) @@ @]
@@ -185,10 +185,14 @@ ELink(x, S) ==
                 S2 == Emit(ky.S, Event("get", ky.k, o.v, NoV, <<ky.kv>>, <<>>, <<>>))
             IN Out3(S2, ResV(ky.S.n), o.v)
           ELSE IF b.t = "CallExpression" THEN
-            LET c == ELink(b.c[1], S)
+            \* D21: the rewriter keeps the receiver of an optional call only when the callee is, syntactically, a
+            \* plain member expression; a callee that is a link of the chain (o?.x.f?.()) or a member in
+            \* parentheses ((o.f)?.()) is extracted as a value and called without receiver
+            LET lost == x.id \in S.d21
+                c == IF lost /\ ~IsOptChain(b.c[1]) THEN LET r == Eval(b.c[1], S) IN Out3(r.S, r.v, NoV) ELSE ELink(b.c[1], S)
                 S1 == IF opt THEN Mark(c.S, Event("optguard", "", c.v, NoV, <<>>, <<>>, <<>>)) ELSE c.S
                 as == EArgs(b.c[2].c, 1, S1, <<>>)
-                recv == IF S.d21 /\ opt /\ IsOptChain(b.c[1]) THEN NoV ELSE c.t
+                recv == IF lost THEN NoV ELSE c.t
                 S2 == Emit(as.S, Event("call", "", c.v, recv, as.vs, <<>>, <<>>))
             IN Out3(S2, ResV(as.S.n), NoV)
           ELSE ERef(b, S)
@@ -367,6 +371,23 @@ Eval(n, S) ==
          LET r == EKids(n.c, 1, Sub(S), <<>>)
              S1 == Back(S, r.S)
          IN Out(Emit(S1, Event("node", n.t \o "/" \o n.v \o "/" \o n.a, NoV, NoV, r.vs, r.S.ev, <<>>)), ResV(S1.n))
+
+(* D21: when the rewriter lowers a chain it extracts everything below the first optional link (counted from   *)
+(* the hooked method call downwards). If that link is an optional CALL whose callee is not, syntactically, a   *)
+(* plain member expression -- a link of the chain (o?.x.f?.()) or a member in parentheses ((o.f)?.()) -- the    *)
+(* callee is extracted as a value and called without receiver. hooked = ids of the hooked optional method calls *)
+RECURSIVE FirstOptLink(_)
+FirstOptLink(x) ==
+  IF ~IsOptChain(x) THEN [found |-> FALSE]
+  ELSE IF OptFlag(x) THEN [found |-> TRUE, node |-> x]
+  ELSE FirstOptLink(x.c[1].c[1])
+RECURSIVE D21Ids(_, _)
+D21Ids(n, hooked) ==
+  (IF n.id \in hooked /\ IsOptChain(n)
+   THEN LET f == FirstOptLink(n) IN
+        IF f.found /\ f.node.c[1].t = "CallExpression" /\ f.node.c[1].c[1].t # "MemberExpression" THEN {f.node.id} ELSE {}
+   ELSE {})
+  \cup UNION {D21Ids(n.c[k], hooked) : k \in 1..Len(n.c)}
 
 (* the events of a whole program *)
 EffectsOf(tree, inj, hooks, late, d21) ==
